@@ -209,8 +209,27 @@ class Run(object):
                 victim = run.listener("ok2", evname)
                 if victim in run.proto.events.get(evname, _NoCbs).callbacks:
                     run.proto.remove_event_listener(evname, victim)
+            if lname == "adder":
+                late = run.listener("late", evname)
+                if late not in run.proto.events.get(evname, _NoCbs).callbacks:
+                    run.proto.add_event_listener(evname, late)
         self._ls[key] = cb
         return cb
+
+    def when_disc(self, kind):
+        """ask to be told about disconnection; the callback may ask again or submit a command"""
+        idx = len(self.dn)
+        self.dn.append(0)
+        d = self.proto.when_disconnected()
+
+        def fired(_, idx=idx):
+            self.dn[idx] += 1
+            if kind == "again":
+                self.when_disc("plain")
+            elif kind == "submit":
+                self.proto.queue_command("GETINFO d%d" % idx)
+            return None
+        d.addBoth(fired)
 
     # -- stimulus ---------------------------------------------------------
     def deliver(self, data):
@@ -242,14 +261,7 @@ class Run(object):
             elif a == "RemL":
                 p.remove_event_listener(e["n"], self.listener(e["l"], e["n"]))
             elif a == "WhenDisc":
-                idx = len(self.dn)
-                self.dn.append(0)
-                d = p.when_disconnected()
-
-                def fired(_, idx=idx):
-                    self.dn[idx] += 1
-                    return None
-                d.addBoth(fired)
+                self.when_disc(e.get("k", "plain"))
             elif a in ("BeginReply", "BeginEvent"):
                 cls = e["cls"] if a == "BeginReply" else "6"
                 name = e.get("n", "") if a == "BeginEvent" else ""
@@ -385,7 +397,7 @@ REPLY_SHAPES = [("2", ["sOK"]), ("2", ["s"]), ("2", ["m", "s"]), ("2", ["m", "m"
 EVENT_SHAPES = [["s"], ["sB"], ["m", "sOK"], ["mB", "m", "sOK"], ["m", "m", "m", "sOK"],
                 ["p", "d", ".", "sOK"], ["pB", "dM", "d", ".", "sOK"], ["pB", "dS", "dE", "dK", ".", "sOK"],
                 ["m", "p", "d", ".", "sOK"]]
-LISTENERS = ["ok1", "ok2", "self", "other", "raise"]
+LISTENERS = ["ok1", "ok2", "self", "other", "raise", "adder", "late"]
 
 
 def random_script(rng, length, lose=True, events=True):
@@ -406,7 +418,7 @@ def random_script(rng, length, lose=True, events=True):
             if rng.random() < 0.6:
                 script.append(dict(a="Submit", k=rng.choice(["plain", "cb", "retry", "chain"])))
             else:
-                script.append(dict(a="WhenDisc"))
+                script.append(dict(a="WhenDisc", k=rng.choice(["plain", "again", "submit"])))
             continue
         if pending and rng.random() < 0.7:
             script.append(dict(a="Line"))
@@ -429,6 +441,8 @@ def random_script(rng, length, lose=True, events=True):
                         reg[curname].remove("ok2")
                         if not reg[curname]:
                             kinds.append("se")
+                    elif l == "adder" and "late" not in reg[curname]:
+                        reg[curname].append("late")
             continue
         r = rng.random()
         if r < 0.30:
@@ -449,7 +463,7 @@ def random_script(rng, length, lose=True, events=True):
                     kinds.append("se")
                 reg[n].append(l)
         elif r < 0.50:
-            script.append(dict(a="WhenDisc"))
+            script.append(dict(a="WhenDisc", k=rng.choice(["plain", "again", "submit"])))
         elif r < 0.75 and not pending and len(kinds) > replies:
             curcls, sh = rng.choice(REPLY_SHAPES)
             script.append(dict(a="BeginReply", cls=curcls, sh=list(sh)))
